@@ -55,6 +55,43 @@ func (c *Ctx) runNilReceiver(rule string, pkgs []*packages.Package, filter func(
 		}
 		return false
 	}
+	// nilPanics: fn panics explicitly where its receiver is known to be nil
+	// (a documented partial method, e.g. NearestNeighbor of the empty tree)
+	nilIsAt := func(fn *ssa.Function, b *ssa.BasicBlock) bool {
+		recv := fn.Params[0]
+		for _, f := range factsAt(b) {
+			bin, ok := f.cond.(*ssa.BinOp)
+			if !ok {
+				continue
+			}
+			var other ssa.Value
+			if bin.X == ssa.Value(recv) {
+				other = bin.Y
+			} else if bin.Y == ssa.Value(recv) {
+				other = bin.X
+			} else {
+				continue
+			}
+			if k, isC := other.(*ssa.Const); !isC || !k.IsNil() {
+				continue
+			}
+			if bin.Op == token.EQL && f.taken || bin.Op == token.NEQ && !f.taken {
+				return true
+			}
+		}
+		return false
+	}
+	nilPanics := func(fn *ssa.Function) bool {
+		if fn.Blocks == nil || len(fn.Params) == 0 {
+			return false
+		}
+		for _, b := range fn.Blocks {
+			if _, ok := b.Instrs[len(b.Instrs)-1].(*ssa.Panic); ok && nilIsAt(fn, b) {
+				return true
+			}
+		}
+		return false
+	}
 	memo := map[*ssa.Function]token.Pos{}
 	inProg := map[*ssa.Function]bool{}
 	// needs: position where fn dereferences its receiver without a nil test
@@ -93,6 +130,20 @@ func (c *Ctx) runNilReceiver(rule string, pkgs []*packages.Package, filter func(
 						if _, isPtr := f.Signature.Recv().Type().(*types.Pointer); isPtr {
 							if p := needs(f); p != token.NoPos {
 								res = x.Pos()
+							} else if nilPanics(f) {
+								// a partial callee reached on every path makes this
+								// method partial in the same documented way; reached
+								// on some paths only, it contradicts the paths that
+								// cope with the empty value
+								all := true
+								for _, rb := range fn.Blocks {
+									if _, isRet := rb.Instrs[len(rb.Instrs)-1].(*ssa.Return); isRet && !b.Dominates(rb) {
+										all = false
+									}
+								}
+								if !all {
+									res = x.Pos()
+								}
 							}
 						} else {
 							res = x.Pos() // value receiver: implicit dereference
@@ -137,8 +188,12 @@ func (c *Ctx) runNilReceiver(rule string, pkgs []*packages.Package, filter func(
 				}
 				c.analysed(qname(fn))
 				key := qname(fn) + " tolerates the nil " + tn
+				if nilPanics(fn) {
+					c.ok(rule, key, fn.Pos(), "panics explicitly on the nil receiver (a documented partial method)")
+					continue
+				}
 				if pos := needs(fn); pos != token.NoPos {
-					c.bad(rule, key, pos, "the receiver is dereferenced (or handed to a method that dereferences it) without a nil test, although sibling methods of "+tn+" treat a nil receiver as the empty value")
+					c.bad(rule, key, pos, "the receiver is dereferenced (or handed to a method that dereferences it or panics on nil) without a nil test, although sibling methods of "+tn+" treat a nil receiver as the empty value")
 				} else {
 					c.ok(rule, key, fn.Pos(), "receiver used only where it was tested against nil")
 				}
